@@ -245,41 +245,7 @@ use std::net::{Ipv4Addr, Ipv6Addr};
 
 verus! {
 
-// ======================= trusted shims: std functions under assumed contracts =======================
-#[verifier::external_type_specification] #[verifier::external_body]
-pub struct ExIpv4Addr(Ipv4Addr);
-#[verifier::external_type_specification] #[verifier::external_body]
-pub struct ExIpv6Addr(Ipv6Addr);
-pub uninterp spec fn spec_octets4(ip: Ipv4Addr) -> Seq<u8>;
-pub uninterp spec fn spec_octets6(ip: Ipv6Addr) -> Seq<u8>;
-
-#[verifier::external_body]
-pub fn u16_from_be_bytes(b: [u8; 2]) -> (r: u16)
-    ensures r as int == (b[0] as int) * 256 + (b[1] as int)
-{ u16::from_be_bytes(b) }
-#[verifier::external_body]
-pub fn u32_from_be_bytes(b: [u8; 4]) -> (r: u32)
-    ensures r as int == (b[0] as int) * 16777216 + (b[1] as int) * 65536 + (b[2] as int) * 256 + (b[3] as int)
-{ u32::from_be_bytes(b) }
-#[verifier::external_body]
-pub fn u16_to_be_bytes(v: u16) -> (r: [u8; 2])
-    ensures r[0] as int == v as int / 256, r[1] as int == v as int % 256
-{ v.to_be_bytes() }
-#[verifier::external_body]
-pub fn u32_to_be_bytes(v: u32) -> (r: [u8; 4])
-    ensures r[0] as int == v as int / 16777216, r[1] as int == (v as int / 65536) % 256,
-            r[2] as int == (v as int / 256) % 256, r[3] as int == v as int % 256
-{ v.to_be_bytes() }
-#[verifier::external_body]
-pub fn ipv4_from_octets(b: [u8; 4]) -> (r: Ipv4Addr) ensures spec_octets4(r) == b@ { Ipv4Addr::from(b) }
-#[verifier::external_body]
-pub fn ipv4_octets(ip: Ipv4Addr) -> (r: [u8; 4]) ensures r@ == spec_octets4(ip) { ip.octets() }
-#[verifier::external_body]
-pub fn ipv6_from_octets(b: [u8; 16]) -> (r: Ipv6Addr) ensures spec_octets6(r) == b@ { Ipv6Addr::from(b) }
-#[verifier::external_body]
-pub fn ipv6_octets(ip: Ipv6Addr) -> (r: [u8; 16]) ensures r@ == spec_octets6(ip) { ip.octets() }
-#[verifier::external_body]
-pub fn usize_min(a: usize, b: usize) -> (r: usize) ensures r == (if a <= b { a } else { b }) { std::cmp::min(a, b) }
+//@include pkt_prelude.vtpl
 
 pub mod error {
     use vstd::prelude::*;
@@ -747,7 +713,6 @@ def icmp_family(fam, views):
 
 def main():
     emit(PRELUDE)
-    enum_block('IpProtocol', '')
     mods = {}
     for v in VIEWS:
         mods.setdefault(v['crate_mod'].split('::')[0], []).append(v)
